@@ -1,6 +1,6 @@
 (* SelWalkCases.v — entry points for the C08 correspondence run.  Deliberately independent of the
    proof file, so that cases can still be evaluated when a regenerated spec breaks a proof. *)
-From Coq Require Import List String ZArith Bool.
+From Coq Require Import List String ZArith NArith Bool.
 From GS Require Import SelWalk.
 From GSgen Require Import GenMaxDepthSel.
 
@@ -9,3 +9,13 @@ Definition scase_agrees (c : scase) : bool :=
   match sc_sel c with Some s => node_equiv 2000 (to_node s) (sc_node c) | None => true end.
 Definition scase_mon (c : scase) : bool :=
   match sc_sel c with Some s => Bool.eqb (sc_go_accepts c) (all_limits_le (sc_max c) s) | None => true end.
+
+(* Whole-stack cases (driver e2eval): a responder with default settings received a request with selector
+   [vc_sel] while the application's request hook did [vc_hook] (0 nothing, 1 pause the response, 2 set a link
+   budget; it never validates).  The request must be answered with RequestRejected iff some recursion limit is
+   none or above the default depth (regenerated from impl/graphsync.go), whatever else the hook asked for, and a
+   rejected request receives no block. *)
+Record vcase := { vc_sel : sel; vc_hook : N; vc_rejected : bool; vc_blocks : N }.
+Definition vcase_ok (c : vcase) : bool :=
+  Bool.eqb (vc_rejected c) (negb (all_limits_le default_max_depth (vc_sel c))) &&
+  (if vc_rejected c then N.eqb (vc_blocks c) 0 else true).
